@@ -51,3 +51,15 @@ Proof.
   destruct Hok as [H1 H2]. exact (IH (mstep s o) (mstep_inv s o HI H1) H2).
 Qed.
 Print Assumptions C04_mems_follow_allocator.
+
+(* The same with memory-preserving containers (annotation memory.preserve; balloons since the repair of the
+   preserved-container rewrite, topology-aware by construction): they are accounted in the allocator but
+   never written.  For every history: a container that does not preserve its memory is told exactly the zone
+   the allocator assigns it, and a preserving container is never told anything -- neither when it is admitted
+   (however wide the allocator had to account it) nor when the allocator moves it for somebody else. *)
+From NV Require Import Mem_Proofs.
+Theorem C04_mems_follow_allocator_preserving : forall pres os, ops_ok pres m0 os ->
+  let s := fold_left (mstep_p pres) os m0 in
+  (forall c z, c ∉ pres -> asg s !! c = Some z -> told s !! c = Some z) /\ (forall c, c ∈ pres -> told s !! c = None).
+Proof. intros pres os Hok. exact (run_inv pres os m0 (MInvP_m0 pres) Hok). Qed.
+Print Assumptions C04_mems_follow_allocator_preserving.
